@@ -798,5 +798,122 @@ SPECS["C20"] = Spec("C20", "runner_rt", c20_parts, {"quick": 2600, "thorough": 2
           "pending-wake ghost for exactly-once. Non-trivial = overlapping operations with a transfer (a), a wait that really blocked (b)."),
     assumptions=DS_ASSUME + RT_ASSUME[2:], technique=DS_TECH + "; multi-signal part: counting model + quiescence oracle on the fiber runtime")
 
+
+# --------------------------------------------------------------------------- C08
+@st.composite
+def io_case(draw, tier):
+    threads = draw(ints(1, T(tier, 3, 4)))
+    shape = draw(st.sampled_from(["streams", "streams", "streams", "accept", "badfd", "close_under_waiter"]))
+    fibers = []
+    cfg = {}
+    classes = ["threads=%d" % threads, shape]
+    if shape in ("streams", "close_under_waiter"):
+        ns = draw(ints(1, 3))
+        cfg["nstream"] = ns
+        if draw(st.booleans()):
+            cfg["sndbuf"] = draw(st.sampled_from([1024, 4096, 16384]))
+            classes.append("small_sndbuf")
+        for s_ in range(ns):
+            typ = draw(ints(0, 1))
+            cfg["stream_type%d" % s_] = typ
+            dirs = [0] if (typ == 1 or (shape == "close_under_waiter" and s_ == 0)) else draw(st.sampled_from([[0], [0, 1]]))
+            shared_fd = len(dirs) == 2  # both ends carry a reader and a writer: no mode switches on them
+            if len(dirs) == 2:
+                classes.append("bidirectional_fd")
+            for d in dirs:
+                a = s_ * 2 + d
+                if shape == "close_under_waiter" and s_ == 0 and d == 0:
+                    # nobody writes: the reader blocks until another fiber closes its descriptor
+                    fibers.append([op("rd", a, 100, draw(ints(0, 4)))])
+                    fibers.append(small_ops(draw, 2) + [op("yield", draw(ints(1, 4))), op("rclose", a)])
+                    continue
+                total = draw(st.sampled_from([1, 10, 500, 5000, 70000, 300000])) if tier == "thorough" or draw(ints(0, 3)) else draw(st.sampled_from([1, 10, 500, 5000]))
+                if total > 5000:
+                    classes.append("larger_than_buffer")
+                w = small_ops(draw, 1)
+                r = small_ops(draw, 1)
+                # optional non-blocking mode on either end (the loops then poll with yield)
+                if not shared_fd and draw(ints(0, 3)) == 0:
+                    r.append(op("nbmode", a, 0, draw(st.sampled_from([1, 2]))))
+                    classes.append("nonblocking_reader")
+                    if draw(st.booleans()):
+                        half = max(1, total // 2)
+                        r.append(op("rd", a, half, draw(ints(0, 4)) | (_chunk_for(draw, half) << 4)))
+                        r.append(op("nbmode", a, 0, draw(st.sampled_from([3, 4]))))
+                        classes.append("back_to_blocking")
+                if not shared_fd and draw(ints(0, 4)) == 0:
+                    w.append(op("nbmode", a, 1, draw(st.sampled_from([1, 2]))))
+                    classes.append("nonblocking_writer")
+                left = total
+                while left > 0:
+                    n = draw(ints(1, left))
+                    dw = draw(ints(0, 5)) == 0
+                    w.append(op("wr", a, n, draw(ints(0, 4)) | (_chunk_for(draw, n) << 4) | ((1 if dw else 0) << 12)))
+                    w.extend(small_ops(draw, 1))
+                    left -= n
+                w.append(op("wclose", a))
+                dw = draw(ints(0, 5)) == 0
+                if dw:
+                    classes.append("msg_dontwait")
+                r.append(op("rdeof", a, 0, draw(ints(0, 4)) | (_chunk_for(draw, total) << 4) | ((1 if dw else 0) << 12)))
+                fibers.append(w)
+                fibers.append(r)
+    elif shape == "accept":
+        nacc = draw(ints(1, 3))
+        nconn = draw(ints(1, 3))
+        per_conn = [draw(ints(1, 3)) for _ in range(nconn)]
+        total = sum(per_conn)
+        cuts = sorted(draw(ints(0, total)) for _ in range(nacc - 1))
+        per_acc = [b - a for a, b in zip([0] + cuts, cuts + [total])]
+        first = True
+        for n in per_acc:
+            ops = small_ops(draw, 1)
+            if first:
+                ops.insert(0, op("listen"))
+                first = False
+            if n > 0:
+                ops.append(op("accept", n))
+            fibers.append(ops)
+        for n in per_conn:
+            fibers.append(small_ops(draw, 2) + [op("connect", n, draw(ints(0, 2)))])
+        classes.append("acceptors=%d" % sum(1 for n in per_acc if n > 0))
+    else:
+        for _ in range(draw(ints(1, 3))):
+            fibers.append([op("badfd", draw(ints(0, 10)), draw(ints(0, 4))) for _ in range(draw(ints(1, 8)))])
+    # finite tickers: other fibers keep running while some are blocked on descriptors
+    for _ in range(draw(ints(0, 2))):
+        fibers.append([op("yield", draw(ints(1, 20)))])
+    order = list(range(len(fibers)))
+    if shape != "accept":
+        order = draw(st.permutations(order))
+    fibers = [fibers[i] for i in order]
+    return {"harness": "io", "threads": threads, "cfg": cfg, "fibers": fibers, "classes": sorted(set(classes))}
+
+
+def _chunk_for(draw, n):
+    # chunk sizes by code: 1, 7, 64, 500, 4096, 70000, 300000, 3 - keep the number of calls per op below ~400
+    sizes = [1, 7, 64, 500, 4096, 70000, 300000, 3]
+    ok = [c for c, sz in enumerate(sizes) if n / sz <= 400]
+    return draw(st.sampled_from(ok))
+
+
+SPECS["C08"] = rt_spec("C08", lambda tier: [{"name": "io", "strategy": io_case(tier), "nsched": T(tier, 24, 96), "args": ["--tso", 0, "--soft", 3000000, "--hard", 30000000]}],
+    {"quick": 1800, "thorough": 16000},
+    "real descriptors under virtual epoll timing: 1-3 streams (AF_UNIX stream socketpairs, optionally both directions on one descriptor and a small SO_SNDBUF, and pipes) each with a writer "
+    "fiber (write/writev/send/sendto/sendmsg in generated chunk sizes 1 B .. 300 KB, some with MSG_DONTWAIT) that closes at the end and a reader fiber (read/readv/recv/recvfrom/recvmsg) that "
+    "reads until EOF; descriptors switched to non-blocking mode with fcntl(O_NONBLOCK) / ioctl(FIONBIO) and back; a reader blocked on a descriptor that another fiber closes; an AF_UNIX "
+    "listener with 1-3 accepting fibers and 1-3 connecting fibers; every shim called on invalid descriptors (-1, closed, rlimit-1, rlimit, INT_MAX); finite ticker fibers; " + SCHED_TXT +
+    "Oracle: byte-sequence model per stream direction (complete, ordered, unduplicated, EOF only after everything was delivered, transfers never empty), EAGAIN never surfaces on a "
+    "blocking-mode descriptor, calls on non-blocking descriptors never suspend the fiber, invalid descriptors give exactly the plain system call's -1/errno (differential) without assert, crash "
+    "or out-of-bounds table access (shadow heap), every blocked fiber is resumed (quiescence). Non-trivial = a call really suspended its fiber, or hit EAGAIN in non-blocking mode, or an "
+    "invalid-descriptor call was made.")
+
+# --------------------------------------------------------------------------- C19 (no vsched)
+import c19 as _c19
+_s19 = Spec("C19", "ctx", lambda tier: [], {"quick": 1500, "thorough": 20000}, rule=_c19.RULE, assumptions=_c19.ASSUME, technique=_c19.TECH, build="ctx")
+_s19.custom = lambda prop, tier, seed, we, sr: _c19.custom(prop, tier, seed, we, sr, _s19)
+_s19.engine = "ctx_runner"
+SPECS["C19"] = _s19
+
 NOT_APPLICABLE = {}
 HOOK_COMMITS = ["0bef496"]
